@@ -20,7 +20,8 @@ MANIFEST = dict(
     text="Theorems in coq/Properties/C17.v: for ISO-8859-1/5/8 the encoder table dumped from the running code equals the standard's code table "
          "for every scalar value (C1 controls: rejected or identical octet), UCS-2 equals UTF-16BE, ASCII is the identity on U+0000..U+007F; "
          "lifted to all texts; decode(encode t) = t for every accepted text of Shift-JIS, EUC-JP, EUC-KR and (ESC-free) ISO-2022-JP; "
-         "every data_coding value with an encoder has a decoder and a splitter (all 256).",
+         "every data_coding value with an encoder has a decoder and a splitter (all 256), and they are those of the same coding "
+         "(C17_dc_closed: encoder, decoder, splitter classified by behaviour).",
     note="Trusted: Coq kernel + vm_compute; the Go table dumper; rune-wise independence of the x/text codecs (validated by string-level cases each run, not proved); "
          "the hand-transcribed standards in coq/Spec. No axioms.",
 )
